@@ -106,7 +106,7 @@ func realMain() int {
 		fmt.Sscan(s, &seed)
 	}
 	harnessDir := filepath.Join(*flagVerif, "harness", prop)
-	rtDir := filepath.Join(*flagVerif, "rt", "verifrt")
+	rtDir := filepath.Join(*flagVerif, "rt")
 	outDir := filepath.Join(*flagVerif, "out", prop)
 	os.MkdirAll(outDir, 0o755)
 	evPath := filepath.Join(*flagVerif, "evidence", prop+".json")
